@@ -5,7 +5,10 @@
 // with, possibly delivered twice) and are verified by the REAL
 // VerifyAndDecode / VerifyMACAndDecode at instants placed on and around every
 // exp / nbf / iat boundary; each decision is compared with the reference
-// decision procedure refimpl/jwtref.
+// decision procedure refimpl/jwtref. Some issuing steps are preceded by issuing
+// attempts that fail (failedIssue), and RSA keys are also written the ways no
+// template writes them (leading zero bytes, through the proto parser, moduli of
+// 2049 / 2052 bits).
 package jwtclock
 
 import (
@@ -71,7 +74,7 @@ func TestMain(m *testing.M) {
 		"accept", "reject", "expired-on-arrival", "aud-list-last-matches", "empty-string-expectation",
 		"rsa-modulus-leading-zero", "rsa-private-integers-leading-zero", "rsa-key-through-proto-parser", "rsa-modulus-bits-not-multiple-of-8", "rsa-key-encoding-refused",
 		"jwk-transport-of-unusual-rsa-key", "failed-issue-by-the-judged-primitive", "failed-issue-by-another-primitive", "failed-issue-then-tink-issue-judged",
-		"issue-attempt-of-unconstrained-outcome", "issue-attempt-expected-to-fail-succeeded")
+		"issue-attempt-of-unconstrained-outcome", "issue-attempt-expected-to-fail-succeeded", "accepted-right-after-a-rejected-verification")
 	core.Main(m, prop, "jwtclock", map[string]string{
 		"jwt validator, encoding, raw/verified JWT": "real", "jwt MAC / signer / verifier factories and full primitives": "real",
 		"jwt key types (jwthmac, jwtecdsa, jwtrsassapkcs1, jwtrsassapss, jwtmldsa)": "real", "internal/jwk (JWK set export/import)": "real",
@@ -127,6 +130,8 @@ type world struct {
 
 	unusualRSA bool // some key of the keyset is an RSA key no template makes (odd modulus length, leading zeros, parsed from a proto)
 	failedIss  int  // issuing attempts that failed as planned
+
+	lastRejected bool // the previous verification was refused
 
 	typesSeen  map[string]bool
 	bits       map[string]bool
@@ -1006,6 +1011,10 @@ func (w *world) decide(ev event, now time.Time, fixed bool) {
 		vj, err = w.verifier(tp.compact, v)
 	}()
 	got := err == nil
+	if got && w.lastRejected {
+		r.Probe("accepted-right-after-a-rejected-verification") // a failed verification leaves nothing behind either
+	}
+	w.lastRejected = !got
 	w.decisions++
 	w.digest = (w.digest ^ uint64(int64(ev.seq)<<3|int64(b2i(fixed))<<2|int64(b2i(want.Accept))<<1|int64(b2i(got))|int64(b2i(want.Either))<<40)) * 1099511628211
 	tc := relClass("exp", want.Exp) + " " + relClass("nbf", want.Nbf) + " " + relClass("iat", want.Iat)
